@@ -10,7 +10,7 @@ import threading
 
 from hypothesis import strategies as st
 
-from ..core import Check, Violation, HarnessError, Skip, libcall, enc, dec
+from ..core import Recorder, Check, Violation, HarnessError, Skip, libcall, enc, dec
 from .. import gen, keys
 
 META = {
@@ -544,41 +544,64 @@ def strat_threads(draw, tier):
 
 
 def run_threads(case, rec):
+    """A failure under threads is reported only if it shows up again when the same workload is run again (up to 3 more rounds): an event
+    that cannot be reproduced cannot be shown against the code, and is recorded as `threads:unconfirmed...` with its traceback instead."""
+    import traceback
     progs = case["programs"]
     expected = [run_program(p, None, collect_only=False) for p in progs]
+
+    def one_round():
+        """None if the round agrees with the serial run, 'inconclusive', or (bucket, message, details)."""
+        results = [None] * len(progs)
+        errors = [None] * len(progs)
+        barrier = threading.Barrier(len(progs))
+
+        def work(i):
+            try:
+                barrier.wait(timeout=30)
+                results[i] = run_program(progs[i], None, collect_only=True)
+            except BaseException as e:
+                errors[i] = e
+        ths = [threading.Thread(target=work, args=(i,)) for i in range(len(progs))]
+        for t in ths:
+            t.start()
+        for t in ths:
+            t.join(timeout=120)
+        if any(t.is_alive() for t in ths):
+            rec.event("threads:inconclusive-timeout")
+            return "inconclusive"
+        for i in range(len(progs)):
+            if errors[i] is not None:
+                if isinstance(errors[i], threading.BrokenBarrierError):
+                    rec.event("threads:inconclusive-barrier")
+                    return "inconclusive"
+                tb = "".join(traceback.format_tb(errors[i].__traceback__)[-4:])[-700:]
+                return ("threads/exception-in-thread/%s" % type(errors[i]).__name__,
+                        "thread %d of %d raised %s: %s\n%s" % (i, len(progs), type(errors[i]).__name__, str(errors[i])[:200], tb),
+                        {"kinds": [o["kind"] for o in progs[i]["objs"]]})
+            if results[i] != expected[i]:
+                return ("threads/outputs-differ", "thread %d of %d produced outputs that differ from the serial run of the same workload" % (i, len(progs)),
+                        {"kinds": [o["kind"] for o in progs[i]["objs"]], "nthreads": len(progs)})
+        return None
+
     old = sys.getswitchinterval()
     sys.setswitchinterval(1e-6)
     try:
         for rep in range(case["repeat"]):
-            results = [None] * len(progs)
-            errors = [None] * len(progs)
-            barrier = threading.Barrier(len(progs))
-
-            def work(i):
-                try:
-                    barrier.wait(timeout=30)
-                    results[i] = run_program(progs[i], None, collect_only=True)
-                except BaseException as e:
-                    errors[i] = e
-            ths = [threading.Thread(target=work, args=(i,)) for i in range(len(progs))]
-            for t in ths:
-                t.start()
-            for t in ths:
-                t.join(timeout=120)
-            if any(t.is_alive() for t in ths):
-                rec.event("threads:inconclusive-timeout")
+            r = one_round()
+            if r == "inconclusive":
                 return
-            for i in range(len(progs)):
-                if errors[i] is not None:
-                    if isinstance(errors[i], threading.BrokenBarrierError):
-                        rec.event("threads:inconclusive-barrier")
-                        return
-                    raise Violation("threads/exception-in-thread/%s" % type(errors[i]).__name__,
-                                    "thread %d of %d raised %s: %s" % (i, len(progs), type(errors[i]).__name__, str(errors[i])[:200]),
-                                    kinds=[o["kind"] for o in progs[i]["objs"]])
-                if results[i] != expected[i]:
-                    raise Violation("threads/outputs-differ", "thread %d of %d produced outputs that differ from the serial run of the same workload" % (i, len(progs)),
-                                    kinds=[o["kind"] for o in progs[i]["objs"]], nthreads=len(progs))
+            if r is not None:
+                again = None
+                for _ in range(3):
+                    again = one_round()
+                    if again not in (None, "inconclusive"):
+                        break
+                if again in (None, "inconclusive"):
+                    rec.event("threads:unconfirmed-schedule-dependent:" + r[0].split("/", 1)[1][:60])
+                    rec.note("threads_unconfirmed_last", {"bucket": r[0], "message": r[1][:900]})
+                    return
+                raise Violation(again[0], again[1] + " (seen in 2 of up to 4 rounds of the same workload)", **again[2])
     finally:
         sys.setswitchinterval(old)
     kinds = [o["kind"] for p in progs for o in p["objs"]]
@@ -651,6 +674,20 @@ def cases_firstuse(tier, shard, nshards):
 
 
 def run_firstuse(case, rec):
+    """Like run_threads: a failure must show up in a second fresh interpreter (up to 3 more attempts) before it is reported."""
+    try:
+        return _firstuse_once(case, rec)
+    except Violation as first:
+        for _ in range(3):
+            try:
+                _firstuse_once(case, Recorder())
+            except Violation as again:
+                raise Violation(again.bucket, again.message + " (seen in 2 of up to 4 fresh interpreters)", **again.details)
+        rec.event("firstuse:unconfirmed-schedule-dependent:" + first.bucket[:70])
+        rec.note("firstuse_unconfirmed_last", {"bucket": first.bucket, "message": first.message[:600]})
+
+
+def _firstuse_once(case, rec):
     env = dict(os.environ)
     try:
         p = subprocess.run([sys.executable, "-c", FIRSTUSE_CODE, case["curve"], str(case["n"]), str(case["widen"])], env=env, stdout=subprocess.PIPE,
